@@ -10,7 +10,6 @@
 // the per-type decoders rely on. nil-dereference and type-assertion obligations are not claimed (they depend on
 // how the TLV objects were constructed).
 package bgp
-
 //@ props C05
 //@ func malformedAttrListErr
 //@   modifies nothing
@@ -28,28 +27,38 @@ package bgp
 //@ func (*TunnelEncapSubTLV).Len
 //@   inline
 //@ func (*EVPNEthernetAutoDiscoveryRoute).DecodeFromBytes
-//@   claims bounds div0 make
+//@   claims bounds div0 make post
+//@   ensures result != nil ==> isMsgErr(result)
 //@ func (*EVPNEthernetSegmentRoute).DecodeFromBytes
-//@   claims bounds div0 make
+//@   claims bounds div0 make post
+//@   ensures result != nil ==> isMsgErr(result)
 //@ func (*EVPNIPMSIRoute).DecodeFromBytes
-//@   claims bounds div0 make
+//@   claims bounds div0 make post
+//@   ensures result != nil ==> isMsgErr(result)
 //@ func (*EVPNIPPrefixRoute).DecodeFromBytes
-//@   claims bounds div0 make
+//@   claims bounds div0 make post
+//@   ensures result != nil ==> isMsgErr(result)
 //@ func (*EVPNMacIPAdvertisementRoute).DecodeFromBytes
-//@   claims bounds div0 make
+//@   claims bounds div0 make post
+//@   ensures result != nil ==> isMsgErr(result)
 //@ func (*EVPNMulticastEthernetTagRoute).DecodeFromBytes
-//@   claims bounds div0 make
+//@   claims bounds div0 make post
+//@   ensures result != nil ==> isMsgErr(result)
 //@ func (*EncapNLRI).decodeFromBytes
-//@   claims bounds div0 make
+//@   claims bounds div0 make post
+//@   ensures result != nil ==> isMsgErr(result)
 //@ func (*FlowSpecComponent).DecodeFromBytes
-//@   claims bounds div0 make
+//@   claims bounds div0 make post
+//@   ensures result != nil ==> isMsgErr(result)
 //@ func (*FlowSpecUnknown).DecodeFromBytes
-//@   claims bounds div0 make
+//@   claims bounds div0 make post
+//@   ensures result != nil ==> isMsgErr(result)
 //@ func (*LsAddrPrefix).decodeFromBytes
 //@   claims bounds div0 make
 //@ func (*LsNLRI).DecodeFromBytes
 //@   modifies l.*
 //@   ensures result == nil ==> len(data) >= 9
+//@   ensures result != nil ==> isMsgErr(result)
 //@ func (*LsNodeNLRI).DecodeFromBytes
 //@   claims bounds div0 make
 //@ func (*LsPrefixDescriptor).ParseTLVs
@@ -57,185 +66,269 @@ package bgp
 //@ func (*LsTLV).DecodeFromBytes
 //@   modifies l.*
 //@   ensures result1 == nil ==> len(result0) == int(l.Length) && len(data) >= int(l.Length) + 4
+//@   ensures result1 != nil ==> isMsgErr(result1)
 //@ func (*LsTLVAdminGroup).DecodeFromBytes
-//@   claims bounds div0 make
+//@   claims bounds div0 make post
+//@   ensures result != nil ==> isMsgErr(result)
 //@ func (*LsTLVAutonomousSystem).DecodeFromBytes
-//@   claims bounds div0 make
+//@   claims bounds div0 make post
+//@   ensures result != nil ==> isMsgErr(result)
 //@ func (*LsTLVBgpConfederationMember).DecodeFromBytes
-//@   claims bounds div0 make
+//@   claims bounds div0 make post
+//@   ensures result != nil ==> isMsgErr(result)
 //@ func (*LsTLVBgpLsID).DecodeFromBytes
-//@   claims bounds div0 make
+//@   claims bounds div0 make post
+//@   ensures result != nil ==> isMsgErr(result)
 //@ func (*LsTLVBgpRouterID).DecodeFromBytes
-//@   claims bounds div0 make
+//@   claims bounds div0 make post
+//@   ensures result != nil ==> isMsgErr(result)
 //@ func (*LsTLVFADPrefixMetric).DecodeFromBytes
-//@   claims bounds div0 make
+//@   claims bounds div0 make post
+//@   ensures result != nil ==> isMsgErr(result)
 //@ func (*LsTLVFlexAlgoDef).DecodeFromBytes
-//@   claims bounds div0 make
+//@   claims bounds div0 make post
+//@   ensures result != nil ==> isMsgErr(result)
 //@ func (*LsTLVIGPFlags).DecodeFromBytes
-//@   claims bounds div0 make
+//@   claims bounds div0 make post
+//@   ensures result != nil ==> isMsgErr(result)
 //@ func (*LsTLVIGPMetric).DecodeFromBytes
-//@   claims bounds div0 make
+//@   claims bounds div0 make post
+//@   ensures result != nil ==> isMsgErr(result)
 //@ func (*LsTLVIPReachability).DecodeFromBytes
-//@   claims bounds div0 make
+//@   claims bounds div0 make post
+//@   ensures result != nil ==> isMsgErr(result)
 //@ func (*LsTLVIPv4InterfaceAddr).DecodeFromBytes
-//@   claims bounds div0 make
+//@   claims bounds div0 make post
+//@   ensures result != nil ==> isMsgErr(result)
 //@ func (*LsTLVIPv4NeighborAddr).DecodeFromBytes
-//@   claims bounds div0 make
+//@   claims bounds div0 make post
+//@   ensures result != nil ==> isMsgErr(result)
 //@ func (*LsTLVIPv6InterfaceAddr).DecodeFromBytes
-//@   claims bounds div0 make
+//@   claims bounds div0 make post
+//@   ensures result != nil ==> isMsgErr(result)
 //@ func (*LsTLVIPv6NeighborAddr).DecodeFromBytes
-//@   claims bounds div0 make
+//@   claims bounds div0 make post
+//@   ensures result != nil ==> isMsgErr(result)
 //@ func (*LsTLVIgpRouterID).DecodeFromBytes
-//@   claims bounds div0 make
+//@   claims bounds div0 make post
+//@   ensures result != nil ==> isMsgErr(result)
 //@ func (*LsTLVIsisArea).DecodeFromBytes
-//@   claims bounds div0 make
+//@   claims bounds div0 make post
+//@   ensures result != nil ==> isMsgErr(result)
 //@ func (*LsTLVLinkID).DecodeFromBytes
-//@   claims bounds div0 make
+//@   claims bounds div0 make post
+//@   ensures result != nil ==> isMsgErr(result)
 //@ func (*LsTLVLinkName).DecodeFromBytes
-//@   claims bounds div0 make
+//@   claims bounds div0 make post
+//@   ensures result != nil ==> isMsgErr(result)
 //@ func (*LsTLVLocalIPv4RouterID).DecodeFromBytes
-//@   claims bounds div0 make
+//@   claims bounds div0 make post
+//@   ensures result != nil ==> isMsgErr(result)
 //@ func (*LsTLVLocalIPv6RouterID).DecodeFromBytes
-//@   claims bounds div0 make
+//@   claims bounds div0 make post
+//@   ensures result != nil ==> isMsgErr(result)
 //@ func (*LsTLVMaxLinkBw).DecodeFromBytes
-//@   claims bounds div0 make
+//@   claims bounds div0 make post
+//@   ensures result != nil ==> isMsgErr(result)
 //@ func (*LsTLVMaxReservableLinkBw).DecodeFromBytes
-//@   claims bounds div0 make
+//@   claims bounds div0 make post
+//@   ensures result != nil ==> isMsgErr(result)
 //@ func (*LsTLVMinMaxUnidirectionalLinkDelay).DecodeFromBytes
-//@   claims bounds div0 make
+//@   claims bounds div0 make post
+//@   ensures result != nil ==> isMsgErr(result)
 //@ func (*LsTLVMultiTopoID).DecodeFromBytes
 //@   claims bounds div0 make
 //@ func (*LsTLVNodeFlagBits).DecodeFromBytes
-//@   claims bounds div0 make
+//@   claims bounds div0 make post
+//@   ensures result != nil ==> isMsgErr(result)
 //@ func (*LsTLVNodeName).DecodeFromBytes
-//@   claims bounds div0 make
+//@   claims bounds div0 make post
+//@   ensures result != nil ==> isMsgErr(result)
 //@ func (*LsTLVOpaqueLinkAttr).DecodeFromBytes
-//@   claims bounds div0 make
+//@   claims bounds div0 make post
+//@   ensures result != nil ==> isMsgErr(result)
 //@ func (*LsTLVOpaqueNodeAttr).DecodeFromBytes
-//@   claims bounds div0 make
+//@   claims bounds div0 make post
+//@   ensures result != nil ==> isMsgErr(result)
 //@ func (*LsTLVOpaquePrefixAttr).DecodeFromBytes
-//@   claims bounds div0 make
+//@   claims bounds div0 make post
+//@   ensures result != nil ==> isMsgErr(result)
 //@ func (*LsTLVOspfAreaID).DecodeFromBytes
-//@   claims bounds div0 make
+//@   claims bounds div0 make post
+//@   ensures result != nil ==> isMsgErr(result)
 //@ func (*LsTLVOspfRouteType).DecodeFromBytes
-//@   claims bounds div0 make
+//@   claims bounds div0 make post
+//@   ensures result != nil ==> isMsgErr(result)
 //@ func (*LsTLVRemoteIPv4RouterID).DecodeFromBytes
-//@   claims bounds div0 make
+//@   claims bounds div0 make post
+//@   ensures result != nil ==> isMsgErr(result)
 //@ func (*LsTLVRemoteIPv6RouterID).DecodeFromBytes
-//@   claims bounds div0 make
+//@   claims bounds div0 make post
+//@   ensures result != nil ==> isMsgErr(result)
 //@ func (*LsTLVSourceRouterID).DecodeFromBytes
-//@   claims bounds div0 make
+//@   claims bounds div0 make post
+//@   ensures result != nil ==> isMsgErr(result)
 //@ func (*LsTLVSrAlgorithm).DecodeFromBytes
-//@   claims bounds div0 make
+//@   claims bounds div0 make post
+//@   ensures result != nil ==> isMsgErr(result)
 //@ func (*LsTLVSrv6BgpPeerNodeSID).DecodeFromBytes
-//@   claims bounds div0 make
+//@   claims bounds div0 make post
+//@   ensures result != nil ==> isMsgErr(result)
 //@ func (*LsTLVSrv6EndXSID).DecodeFromBytes
 //@   claims bounds div0 make
 //@ func (*LsTLVSrv6EndXSID).parseSubTLVs
 //@   claims bounds div0 make
 //@ func (*LsTLVSrv6EndpointBehavior).DecodeFromBytes
-//@   claims bounds div0 make
+//@   claims bounds div0 make post
+//@   ensures result != nil ==> isMsgErr(result)
 //@ func (*LsTLVSrv6SIDStructure).DecodeFromBytes
-//@   claims bounds div0 make
+//@   claims bounds div0 make post
+//@   ensures result != nil ==> isMsgErr(result)
 //@ func (*LsTLVTEDefaultMetric).DecodeFromBytes
-//@   claims bounds div0 make
+//@   claims bounds div0 make post
+//@   ensures result != nil ==> isMsgErr(result)
 //@ func (*LsTLVUnidirectionalDelayVariation).DecodeFromBytes
-//@   claims bounds div0 make
+//@   claims bounds div0 make post
+//@   ensures result != nil ==> isMsgErr(result)
 //@ func (*LsTLVUnidirectionalLinkDelay).DecodeFromBytes
-//@   claims bounds div0 make
+//@   claims bounds div0 make post
+//@   ensures result != nil ==> isMsgErr(result)
 //@ func (*MUPDirectSegmentDiscoveryRoute).DecodeFromBytes
-//@   claims bounds div0 make
+//@   claims bounds div0 make post
+//@   ensures result != nil ==> isMsgErr(result)
 //@ func (*MUPInterworkEndpointTLV).DecodeFromBytes
-//@   claims bounds div0 make
+//@   claims bounds div0 make post
+//@   ensures result != nil ==> isMsgErr(result)
 //@ func (*MUPInterworkSegmentDiscoveryRoute).DecodeFromBytes
-//@   claims bounds div0 make
+//@   claims bounds div0 make post
+//@   ensures result != nil ==> isMsgErr(result)
 //@ func (*MUPSessionParametersTLV).DecodeFromBytes
-//@   claims bounds div0 make
+//@   claims bounds div0 make post
+//@   ensures result != nil ==> isMsgErr(result)
 //@ func (*MUPSourceAddressTLV).DecodeFromBytes
-//@   claims bounds div0 make
+//@   claims bounds div0 make post
+//@   ensures result != nil ==> isMsgErr(result)
 //@ func (*MUPType1SessionTransformedRoute).DecodeFromBytes
 //@   claims bounds div0 make
 //@ func (*MUPType2SessionTransformedRoute).DecodeFromBytes
 //@   claims bounds div0 make
 //@ func (*MUPUnknownTLV).DecodeFromBytes
-//@   claims bounds div0 make
+//@   claims bounds div0 make post
+//@   ensures result != nil ==> isMsgErr(result)
 //@ func (*OpaqueNLRI).decodeFromBytes
-//@   claims bounds div0 make
+//@   claims bounds div0 make post
+//@   ensures result != nil ==> isMsgErr(result)
 //@ func (*PathAttributeAigp).DecodeFromBytes
-//@   claims bounds div0 make
+//@   claims bounds div0 make post
+//@   ensures result != nil ==> isMsgErr(result)
 //@ func (*PathAttributeIP6ExtendedCommunities).DecodeFromBytes
 //@   claims bounds div0 make
 //@ func (*RouteDistinguisherFourOctetAS).DecodeFromBytes
-//@   claims bounds div0 make
+//@   claims bounds div0 make post
+//@   ensures result != nil ==> isMsgErr(result)
 //@ func (*RouteDistinguisherIPAddressAS).DecodeFromBytes
-//@   claims bounds div0 make
+//@   claims bounds div0 make post
+//@   ensures result != nil ==> isMsgErr(result)
 //@ func (*RouteDistinguisherTwoOctetAS).DecodeFromBytes
-//@   claims bounds div0 make
+//@   claims bounds div0 make post
+//@   ensures result != nil ==> isMsgErr(result)
 //@ func (*RouteDistinguisherUnknown).DecodeFromBytes
-//@   claims bounds div0 make
+//@   claims bounds div0 make post
+//@   ensures result != nil ==> isMsgErr(result)
 //@ func (*RouteTargetMembershipNLRI).decodeFromBytes
-//@   claims bounds div0 make
+//@   claims bounds div0 make post
+//@   ensures result != nil ==> isMsgErr(result)
 //@ func (*SRPolicyNLRI).decodeFromBytes
-//@   claims bounds div0 make
+//@   claims bounds div0 make post
+//@   ensures result != nil ==> isMsgErr(result)
 //@ func (*SRv6EndpointBehaviorStructure).DecodeFromBytes
-//@   claims bounds div0 make
+//@   claims bounds div0 make post
+//@   ensures result != nil ==> isMsgErr(result)
 //@ func (*SRv6L3ServiceAttribute).DecodeFromBytes
-//@   claims bounds div0 make
+//@   claims bounds div0 make post
+//@   ensures result != nil ==> isMsgErr(result)
 //@ func (*SRv6SIDStructureSubSubTLV).DecodeFromBytes
-//@   claims bounds div0 make
+//@   claims bounds div0 make post
+//@   ensures result != nil ==> isMsgErr(result)
 //@ func (*SRv6ServiceTLV).DecodeFromBytes
-//@   claims bounds div0 make
+//@   claims bounds div0 make post
+//@   ensures result != nil ==> isMsgErr(result)
 //@ func (*SegmentListWeight).DecodeFromBytes
-//@   claims bounds div0 make
+//@   claims bounds div0 make post
+//@   ensures result != nil ==> isMsgErr(result)
 //@ func (*SegmentTypeA).DecodeFromBytes
-//@   claims bounds div0 make
+//@   claims bounds div0 make post
+//@   ensures result != nil ==> isMsgErr(result)
 //@ func (*SegmentTypeB).DecodeFromBytes
-//@   claims bounds div0 make
+//@   claims bounds div0 make post
+//@   ensures result != nil ==> isMsgErr(result)
 //@ func (*SubSubTLV).DecodeFromBytes
 //@   modifies s.*
 //@   ensures result1 == nil ==> len(result0) == int(s.Length) && len(data) >= int(s.Length) + 3
+//@   ensures result1 != nil ==> isMsgErr(result1)
 //@ func (*TLV).DecodeFromBytes
 //@   modifies t.*
 //@   ensures result1 == nil ==> len(result0) == int(t.Length) && len(data) >= int(t.Length) + 3
+//@   ensures result1 != nil ==> isMsgErr(result1)
 //@ func (*TunnelEncapSubTLV).DecodeFromBytes
 //@   modifies t.*
 //@   ensures err == nil ==> len(value) == int(t.Length) && len(data) >= int(t.Length) + 2
+//@   ensures err != nil ==> isMsgErr(err)
 //@ func (*TunnelEncapSubTLVColor).DecodeFromBytes
-//@   claims bounds div0 make
+//@   claims bounds div0 make post
+//@   ensures result != nil ==> isMsgErr(result)
 //@ func (*TunnelEncapSubTLVEgressEndpoint).DecodeFromBytes
-//@   claims bounds div0 make
+//@   claims bounds div0 make post
+//@   ensures result != nil ==> isMsgErr(result)
 //@ func (*TunnelEncapSubTLVEncapsulation).DecodeFromBytes
-//@   claims bounds div0 make
+//@   claims bounds div0 make post
+//@   ensures result != nil ==> isMsgErr(result)
 //@ func (*TunnelEncapSubTLVProtocol).DecodeFromBytes
-//@   claims bounds div0 make
+//@   claims bounds div0 make post
+//@   ensures result != nil ==> isMsgErr(result)
 //@ func (*TunnelEncapSubTLVSRBSID).DecodeFromBytes
-//@   claims bounds div0 make
+//@   claims bounds div0 make post
+//@   ensures result != nil ==> isMsgErr(result)
 //@ func (*TunnelEncapSubTLVSRCandidatePathName).DecodeFromBytes
-//@   claims bounds div0 make
+//@   claims bounds div0 make post
+//@   ensures result != nil ==> isMsgErr(result)
 //@ func (*TunnelEncapSubTLVSRENLP).DecodeFromBytes
-//@   claims bounds div0 make
+//@   claims bounds div0 make post
+//@   ensures result != nil ==> isMsgErr(result)
 //@ func (*TunnelEncapSubTLVSRPreference).DecodeFromBytes
-//@   claims bounds div0 make
+//@   claims bounds div0 make post
+//@   ensures result != nil ==> isMsgErr(result)
 //@ func (*TunnelEncapSubTLVSRPriority).DecodeFromBytes
-//@   claims bounds div0 make
+//@   claims bounds div0 make post
+//@   ensures result != nil ==> isMsgErr(result)
 //@ func (*TunnelEncapSubTLVSRv6BSID).DecodeFromBytes
-//@   claims bounds div0 make
+//@   claims bounds div0 make post
+//@   ensures result != nil ==> isMsgErr(result)
 //@ func (*TunnelEncapSubTLVUDPDestPort).DecodeFromBytes
-//@   claims bounds div0 make
+//@   claims bounds div0 make post
+//@   ensures result != nil ==> isMsgErr(result)
 //@ func (*TunnelEncapSubTLVUnknown).DecodeFromBytes
-//@   claims bounds div0 make
+//@   claims bounds div0 make post
+//@   ensures result != nil ==> isMsgErr(result)
 //@ func (*VPLSNLRI).decodeFromBytes
-//@   claims bounds div0 make
+//@   claims bounds div0 make post
+//@   ensures result != nil ==> isMsgErr(result)
 //@ func (*flowSpecMac).DecodeFromBytes
-//@   claims bounds div0 make
+//@   claims bounds div0 make post
+//@   ensures result != nil ==> isMsgErr(result)
 //@ func (*flowSpecPrefix).DecodeFromBytes
-//@   claims bounds div0 make
+//@   claims bounds div0 make post
+//@   ensures result != nil ==> isMsgErr(result)
 //@ func (*flowSpecPrefix6).DecodeFromBytes
-//@   claims bounds div0 make
+//@   claims bounds div0 make post
+//@   ensures result != nil ==> isMsgErr(result)
 //@ func ParseAs4Value
 //@   claims bounds div0 make
 //@ func ParseBGPBody
 //@   claims bounds div0 make
+//@ func NewIPv6AddressSpecificExtended
+//@   modifies nothing
+//@   ensures ip.Is6() ==> result1 == nil
 //@ func ParseIP6Extended
 //@   claims bounds div0 make
 //@ func ParseMPLSLabelStack
@@ -252,3 +345,63 @@ package bgp
 //@   claims bounds div0 make
 //@ func parseRdAndRt
 //@   claims bounds div0 make
+//@ func (*EthernetSegmentIdentifier).DecodeFromBytes
+//@   claims post
+//@   ensures result != nil ==> isMsgErr(result)
+//@ func (*FlowSpecNLRI).decodeFromBytes
+//@   claims post
+//@   ensures result != nil ==> isMsgErr(result)
+//@ func (*LsTLVAdjacencySID).DecodeFromBytes
+//@   claims post
+//@   ensures result != nil ==> isMsgErr(result)
+//@ func (*LsTLVNodeDescriptor).DecodeFromBytes
+//@   claims post
+//@   ensures result != nil ==> isMsgErr(result)
+//@ func (*LsTLVPeerAdjacencySID).DecodeFromBytes
+//@   claims post
+//@   ensures result != nil ==> isMsgErr(result)
+//@ func (*LsTLVPeerNodeSID).DecodeFromBytes
+//@   claims post
+//@   ensures result != nil ==> isMsgErr(result)
+//@ func (*LsTLVPeerSetSID).DecodeFromBytes
+//@   claims post
+//@   ensures result != nil ==> isMsgErr(result)
+//@ func (*LsTLVPrefixSID).DecodeFromBytes
+//@   claims post
+//@   ensures result != nil ==> isMsgErr(result)
+//@ func (*LsTLVSIDLabel).DecodeFromBytes
+//@   claims post
+//@   ensures result != nil ==> isMsgErr(result)
+//@ func (*LsTLVSrCapabilities).DecodeFromBytes
+//@   claims post
+//@   ensures result != nil ==> isMsgErr(result)
+//@ func (*LsTLVSrLocalBlock).DecodeFromBytes
+//@   claims post
+//@   ensures result != nil ==> isMsgErr(result)
+//@ func (*LsTLVSrlg).DecodeFromBytes
+//@   claims post
+//@   ensures result != nil ==> isMsgErr(result)
+//@ func (*LsTLVSrv6SIDInfo).DecodeFromBytes
+//@   claims post
+//@   ensures result != nil ==> isMsgErr(result)
+//@ func (*LsTLVUnreservedBw).DecodeFromBytes
+//@   claims post
+//@   ensures result != nil ==> isMsgErr(result)
+//@ func (*PathAttributePrefixSID).DecodeFromBytes
+//@   claims post
+//@   ensures result != nil ==> isMsgErr(result)
+//@ func (*PathAttributeTunnelEncap).DecodeFromBytes
+//@   claims post
+//@   ensures result != nil ==> isMsgErr(result)
+//@ func (*SRv6InformationSubTLV).DecodeFromBytes
+//@   claims post
+//@   ensures result != nil ==> isMsgErr(result)
+//@ func (*SubTLV).DecodeFromBytes
+//@   claims post
+//@   ensures result1 != nil ==> isMsgErr(result1)
+//@ func (*TunnelEncapSubTLVSRSegmentList).DecodeFromBytes
+//@   claims post
+//@   ensures result != nil ==> isMsgErr(result)
+//@ func (*TunnelEncapTLV).DecodeFromBytes
+//@   claims post
+//@   ensures result != nil ==> isMsgErr(result)
